@@ -102,6 +102,45 @@ type sumKey struct {
 	fn   *ssa.Function
 	gate string
 	kind string
+	call *ssa.Call
+}
+
+// bindParams makes h's parameters stand for the arguments of call while f runs
+// (provenance predicates then see through the helper's parameters).
+// BindParams is bindParams for rule packs.
+func BindParams(h *ssa.Function, call *ssa.Call, f func()) { bindParams(h, call, f) }
+
+func bindParams(h *ssa.Function, call *ssa.Call, f func()) {
+	if call == nil {
+		f()
+		return
+	}
+	saved := map[*ssa.Parameter]ssa.Value{}
+	had := map[*ssa.Parameter]bool{}
+	args := call.Call.Args
+	if call.Call.IsInvoke() {
+		args = append([]ssa.Value{call.Call.Value}, args...)
+	}
+	for i, pm := range h.Params {
+		if i >= len(args) {
+			break
+		}
+		saved[pm], had[pm] = ParamBinding[pm], false
+		if _, ok := ParamBinding[pm]; ok {
+			had[pm] = true
+		}
+		ParamBinding[pm] = args[i]
+	}
+	defer func() {
+		for pm := range saved {
+			if had[pm] {
+				ParamBinding[pm] = saved[pm]
+			} else {
+				delete(ParamBinding, pm)
+			}
+		}
+	}()
+	f()
 }
 
 var (
@@ -120,16 +159,17 @@ func (g Gate) in(h *ssa.Function) Gate {
 
 // helperOf: the repository function with a body that produced value v as its
 // result #idx (idx<0: last) on every origin; nil when origins differ.
-func helperOf(v ssa.Value, idx int, self *ssa.Function) *ssa.Function {
+func helperOf(v ssa.Value, idx int, self *ssa.Function) (*ssa.Function, *ssa.Call) {
 	vals, unknown := Origins(v)
 	if unknown || len(vals) == 0 {
-		return nil
+		return nil, nil
 	}
 	var h *ssa.Function
+	var site *ssa.Call
 	for _, o := range vals {
 		call, i, ok := CallResult(o)
 		if !ok {
-			return nil
+			return nil, nil
 		}
 		n := call.Call.Signature().Results().Len()
 		want := idx
@@ -137,23 +177,26 @@ func helperOf(v ssa.Value, idx int, self *ssa.Function) *ssa.Function {
 			want = n - 1
 		}
 		if i != want {
-			return nil
+			return nil, nil
 		}
 		f := CalleeFunc(&call.Call)
 		if f == nil || f.Blocks == nil || !IsRepoFunc(f) || f == self {
-			return nil
+			return nil, nil
 		}
 		if h != nil && h != f {
-			return nil
+			return nil, nil
 		}
 		h = f
+		if len(vals) == 1 {
+			site = call
+		}
 	}
-	return h
+	return h, site
 }
 
 // enforcesErr: every non-error return of h lies behind g's pass edge.
-func (g Gate) enforcesErr(h *ssa.Function) bool {
-	k := sumKey{h, g.Name, "err"}
+func (g Gate) enforcesErr(h *ssa.Function, site *ssa.Call) bool {
+	k := sumKey{h, g.Name, "err", site}
 	if r, ok := sumCache[k]; ok {
 		return r == 1
 	}
@@ -194,7 +237,7 @@ func (g Gate) enforcesErr(h *ssa.Function) bool {
 
 // enforcesBool: h's boolean result #0 is val only behind g's pass edge, or is
 // g's own tested value (then the polarity is g's). Returns (ok, passWhenTrue).
-func (g Gate) enforcesBool(h *ssa.Function) (bool, bool) {
+func (g Gate) enforcesBool(h *ssa.Function, ri0 int) (bool, bool) {
 	if sumDepth >= maxSummaryDepth {
 		return false, false
 	}
@@ -209,10 +252,10 @@ func (g Gate) enforcesBool(h *ssa.Function) (bool, bool) {
 	allVerdict, pol, first := true, false, true
 	for _, ri := range rets {
 		ret := ri.(*ssa.Return)
-		if ret.Block() == h.Recover || len(ret.Results) == 0 {
+		if ret.Block() == h.Recover || len(ret.Results) <= ri0 {
 			continue
 		}
-		v := ret.Results[0]
+		v := ret.Results[ri0]
 		if _, isConst := v.(*ssa.Const); isConst {
 			allVerdict = false
 			break
@@ -253,15 +296,15 @@ func (g Gate) enforcesBool(h *ssa.Function) (bool, bool) {
 		n, bypass := 0, false
 		for _, ri := range rets {
 			ret := ri.(*ssa.Return)
-			if len(ret.Results) == 0 {
+			if len(ret.Results) <= ri0 {
 				continue
 			}
-			if b, ok := BoolConst(ret.Results[0]); ok && b == val {
+			if b, ok := BoolConst(ret.Results[ri0]); ok && b == val {
 				n++
 				if r.Reachable(ret) {
 					bypass = true
 				}
-			} else if _, isConst := ret.Results[0].(*ssa.Const); !isConst {
+			} else if _, isConst := ret.Results[ri0].(*ssa.Const); !isConst {
 				bypass = true // computed answers: not decidable here
 			}
 		}
@@ -288,8 +331,13 @@ func (g Gate) viaHelper(a Atom, self *ssa.Function) (bool, bool) {
 		if x == nil || !IsErrorType(x.Type()) {
 			return false, false
 		}
-		h := helperOf(x, -1, self)
-		if h == nil || !g.enforcesErr(h) {
+		h, site := helperOf(x, -1, self)
+		if h == nil {
+			return false, false
+		}
+		ok := false
+		bindParams(h, site, func() { ok = g.enforcesErr(h, site) })
+		if !ok {
 			return false, false
 		}
 		return true, a.Op == token.EQL
@@ -300,11 +348,17 @@ func (g Gate) viaHelper(a Atom, self *ssa.Function) (bool, bool) {
 		if bt, ok := a.X.Type().Underlying().(*types.Basic); !ok || bt.Kind() != types.Bool {
 			return false, false
 		}
-		h := helperOf(a.X, 0, self)
-		if h == nil || h.Signature.Results().Len() != 1 {
+		idx := 0
+		if ex, isEx := a.X.(*ssa.Extract); isEx {
+			idx = ex.Index
+		}
+		h, site := helperOf(a.X, idx, self)
+		if h == nil || h.Signature.Results().Len() <= idx {
 			return false, false
 		}
-		return g.enforcesBool(h)
+		ok, pwt := false, false
+		bindParams(h, site, func() { ok, pwt = g.enforcesBool(h, idx) })
+		return ok, pwt
 	}
 	return false, false
 }
@@ -1094,6 +1148,11 @@ func CheckGate(p *Prog, fn *ssa.Function, g Gate, sinks []ssa.Instruction) GateR
 			}
 		}
 		if r.Reachable(s) {
+			// the block holding check and sink was extracted into a new helper: decide it there
+			if gatedInsideHelper(s, []Gate{g}, 0) {
+				res.Sites++
+				continue
+			}
 			res.Bypassed = append(res.Bypassed, s)
 			res.Witness[s] = r.Path(p, s)
 		}
@@ -1205,6 +1264,101 @@ func CallSinks(fn *ssa.Function, m CallMatcher, all bool) []ssa.Instruction {
 	return out
 }
 
+// CallSinksX is CallSinks for sinks handed to the gate / pairing engines: a call
+// of a function that is new since the anchor snapshot and contains matching
+// calls stands for them (the engines descend into it). Not for rules that
+// inspect the arguments of the calls they enumerate.
+func CallSinksX(fn *ssa.Function, m CallMatcher, all bool) []ssa.Instruction {
+	return callSinks(fn, m, all, 0)
+}
+
+// IsNewFunc (set by the driver from the anchor snapshot) tells whether a
+// function did not exist when the rule tables were written: called from an
+// anchored function it is taken for a block that was extracted out of it.
+var IsNewFunc = func(*ssa.Function) bool { return false }
+
+// sinkExpansion: a call of a new helper that contains the sinks a rule looks
+// for stands for those sinks in the caller; the gate engine descends into the
+// helper when the call itself is not gated.
+type expansion struct {
+	h     *ssa.Function
+	inner []ssa.Instruction
+}
+
+var sinkExpansion = map[ssa.Instruction]expansion{}
+
+// ExpandSink: in is a call of a new helper standing for sinks inside it.
+func ExpandSink(in ssa.Instruction) (*ssa.Function, []ssa.Instruction, bool) {
+	e, ok := sinkExpansion[in]
+	return e.h, e.inner, ok
+}
+
+func callSinks(fn *ssa.Function, m CallMatcher, all bool, depth int) []ssa.Instruction {
+	var out []ssa.Instruction
+	for _, c := range CallsIn(fn) {
+		if _, ok := c.(*ssa.Call); !ok && !all {
+			continue
+		}
+		if m(c.Common()) {
+			out = append(out, c)
+			continue
+		}
+		if depth >= 2 {
+			continue
+		}
+		h := CalleeFunc(c.Common())
+		if h == nil || h.Blocks == nil || h == fn || !IsRepoFunc(h) || !IsNewFunc(h) {
+			continue
+		}
+		if inner := callSinks(h, m, all, depth+1); len(inner) > 0 {
+			out = append(out, c)
+			sinkExpansion[c] = expansion{h, inner}
+		}
+	}
+	return out
+}
+
+// gatedInsideHelper: sink s is a call of a new helper holding the real sinks;
+// they are all behind the (re-instantiated) gates inside the helper.
+func gatedInsideHelper(s ssa.Instruction, gates []Gate, depth int) bool {
+	exp, ok := sinkExpansion[s]
+	if !ok || depth > 2 {
+		return false
+	}
+	call, isCall := s.(*ssa.Call)
+	held := false
+	run := func() {
+		removed := map[Edge]bool{}
+		sites := 0
+		for _, g := range gates {
+			e, st := g.in(exp.h).PassEdges(exp.h)
+			sites += len(st)
+			for k := range e {
+				removed[k] = true
+			}
+		}
+		if sites == 0 {
+			return
+		}
+		for e := range ErrorExitEdges(exp.h) {
+			removed[e] = true
+		}
+		r := Reach(exp.h, ReachOpts{Removed: removed})
+		for _, in := range exp.inner {
+			if r.Reachable(in) && !gatedInsideHelper(in, gates, depth+1) {
+				return
+			}
+		}
+		held = true
+	}
+	if isCall {
+		bindParams(exp.h, call, run)
+	} else {
+		run()
+	}
+	return held
+}
+
 // MustPass: every sink is unreachable from entry (or from `from`) when paths
 // are cut at instructions matching cut. Returns the bypassing sinks.
 func MustPass(fn *ssa.Function, from ssa.Instruction, cut func(ssa.Instruction) bool, sinks []ssa.Instruction, removed map[Edge]bool) (bypassed []ssa.Instruction, r *ReachResult) {
@@ -1272,12 +1426,95 @@ func (c *Ctx) RequireAnyGate(rule string, fn *ssa.Function, gates []Gate, minSit
 		removed[e] = true
 	}
 	var allSites []*ssa.If
+	// a helper may enforce the DISJUNCTION (`if x != nil && !equal(x, y) { return err }` moved
+	// into a function) without enforcing any single disjunct: summarise the disjunction too
+	var orSites []*ssa.If
+	if len(gates) > 1 {
+		var ns []string
+		for _, g := range gates {
+			ns = append(ns, g.Name)
+		}
+		gs := gates
+		var mk func(f func(*ssa.Function) []Gate) Gate
+		mk = func(f func(*ssa.Function) []Gate) Gate {
+			or := Gate{Name: "(" + strings.Join(ns, " ∨ ") + ")"}
+			or.Match = func(a Atom) (bool, bool) { return false, false } // direct sites are counted per disjunct below
+			or.For = func(h *ssa.Function) Gate {
+				inner := f(h)
+				o := Gate{Name: or.Name}
+				o.Match = func(a Atom) (bool, bool) {
+					for _, g := range inner {
+						if m, pwt := g.Match(a); m {
+							return true, pwt
+						}
+					}
+					return false, false
+				}
+				o.For = func(h2 *ssa.Function) Gate { return mk(f).For(h2) }
+				return o
+			}
+			return or
+		}
+		or := mk(func(h *ssa.Function) []Gate {
+			var out []Gate
+			for _, g := range gs {
+				out = append(out, g.in(h))
+			}
+			return out
+		})
+		oe, os := or.PassEdges(fn)
+		for e := range oe {
+			removed[e] = true
+		}
+		orSites = os
+	}
 	for i, g := range gates {
 		names = append(names, g.Name)
 		edges, sites := g.PassEdges(fn)
 		min := 1
 		if i < len(minSites) && minSites[i] > 0 {
 			min = minSites[i]
+		}
+		if len(sites) < min && len(orSites) > 0 {
+			// the disjunct is tested inside the helper(s) that enforce the disjunction
+			n := len(sites)
+			for _, s := range orSites {
+				a := AtomOf(s)
+				var x ssa.Value = a.X
+				idx := 0
+				if ex, isEx := a.X.(*ssa.Extract); isEx {
+					idx = ex.Index
+				}
+				if a.Op == token.EQL || a.Op == token.NEQ {
+					idx = -1
+					if IsNilConst(a.X) {
+						x = a.Y
+					}
+				}
+				if h, site := helperOf(x, idx, fn); h != nil {
+					bindParams(h, site, func() {
+						_, hs := g.in(h).PassEdges(h)
+						n += len(hs)
+					})
+				}
+			}
+			if n >= min {
+				sites = append(sites, orSites...)
+			}
+		}
+		if len(sites) < min && len(sinks) > 0 {
+			// check and sink were extracted together into a new helper
+			all := true
+			for _, s := range sinks {
+				if !gatedInsideHelper(s, gates, 0) {
+					all = false
+				}
+			}
+			if all {
+				sites = append(sites, make([]*ssa.If, min)...)[:0]
+				edges = map[Edge]bool{}
+				min = 0
+			}
 		}
 		if len(sites) < min {
 			construct := FuncName(fn) + "|" + strings.Join(names, " ∨ ") + "|" + sinkDesc
@@ -1370,6 +1607,9 @@ func (c *Ctx) RequireAnyGate(rule string, fn *ssa.Function, gates []Gate, minSit
 	r := Reach(fn, ReachOpts{Removed: removed})
 	for _, s := range useSinks {
 		if r.Reachable(s) {
+			if gatedInsideHelper(s, gates, 0) {
+				continue
+			}
 			c.Violate(rule, construct, c.P.Pos(instrPos(s)), fmt.Sprintf("%s at %s is reachable in %s without crossing the pass edge of (%s); witness %s", desc, c.P.Pos(instrPos(s)), FuncName(fn), strings.Join(names, " ∨ "), r.Path(c.P, s)))
 			return false
 		}
